@@ -392,6 +392,15 @@ pub(crate) struct LogReader {
     writing.
     */
     ended_mid_fragment: bool,
+
+    /**
+    True if a damaged fragment (checksum mismatch, unknown block type, malformed header) was
+    skipped while reading.
+
+    Skipping damaged records is the documented behavior for the write-ahead log. A reader of the
+    manifest must treat it as corruption.
+    */
+    skipped_damaged_fragment: bool,
 }
 
 /// Public methods
@@ -418,6 +427,7 @@ impl LogReader {
             current_cursor_position: initial_block_offset,
             current_block_offset: 0,
             ended_mid_fragment: false,
+            skipped_damaged_fragment: false,
         };
 
         Ok(reader)
@@ -426,6 +436,11 @@ impl LogReader {
     /// Returns true if the end of the log file was reached in the middle of a fragment.
     pub fn ended_mid_fragment(&self) -> bool {
         self.ended_mid_fragment
+    }
+
+    /// Returns true if a damaged fragment was skipped by any of the reads so far.
+    pub fn skipped_damaged_fragment(&self) -> bool {
+        self.skipped_damaged_fragment
     }
 
     /**
@@ -465,6 +480,7 @@ impl LogReader {
                 // completed, so they are dropped as well.
                 data_buffer.clear();
                 is_in_fragmented_record = false;
+                self.skipped_damaged_fragment = true;
             } else {
                 let record = maybe_record.unwrap();
 
